@@ -194,6 +194,10 @@ fn run_case(cx: &CaseCtx, rep: &mut Report) {
 		pmtiles_root_boundary_walk(cx, rep, &mut rng);
 		return;
 	}
+	if (22..=24).contains(&cx.case) || (cx.tier == Tier::Thorough && cx.case % 100 == 99) {
+		siblings(cx, rep, &mut rng);
+		return;
+	}
 	let target = if (13..=15).contains(&cx.case) || cx.case == 20 {
 		"pmtiles"
 	} else if (16..=18).contains(&cx.case) {
@@ -412,6 +416,9 @@ fn run_case(cx: &CaseCtx, rep: &mut Report) {
 				rep.violation(&format!("{class}|{}", f.kind), "an independent decoder recovers a different mapping / declaration", witness(f.detail));
 			}
 			for n in &d.notes {
+				if n.contains("stored twice") {
+					rep.violation(&format!("{class}|tile-stored-twice"), "the written container stores one tile name twice", witness(json!({"note": n})));
+				}
 				if n.contains("16 KiB") {
 					rep.violation(&format!("{class}|layout-root-beyond-16k"), "PMTiles root directory is not inside the first 16 KiB", witness(json!({"note": n})));
 				}
@@ -430,5 +437,78 @@ fn run_case(cx: &CaseCtx, rep: &mut Report) {
 	if rep.wants_sample() && nontrivial {
 		rep.sample(json!({"target": target, "tileset": ts.describe(), "widened_coverage": widened, "via_blob_writer": via_blob}));
 	}
+	let _ = std::fs::remove_dir_all(&dir);
+}
+
+/// Conversions that overlap in time, into one folder, under one stem (`c.versatiles`, `c.pmtiles`, `c.mbtiles`,
+/// `c.tar`): one tile set per target, one thread per target, sources that yield so that the writers really
+/// interleave. Every file afterwards has to be the complete container of its own tile set.
+fn siblings(cx: &CaseCtx, rep: &mut Report, rng: &mut Rng) {
+	let dir = cx.fresh_dir("c01");
+	let mut targets = vec!["versatiles", "pmtiles", "mbtiles", "tar"];
+	rng.shuffle(&mut targets);
+	targets.truncate(rng.range(2, 4) as usize);
+	let sets: Vec<TileSet> = targets.iter().map(|t| gen::gen_tileset(rng, &GenOpts { max_tiles: cx.tier.pick(300, 800), max_level: 14, formats: pairs_for(t), unique_payloads: true, ..Default::default() })).collect();
+	cx.progress(&format!("siblings {targets:?}"));
+	let witness = |extra: serde_json::Value| json!({"scenario": "conversions into sibling targets at the same time", "targets": targets, "tilesets": sets.iter().map(|t| t.describe()).collect::<Vec<_>>(), "detail": extra});
+	let barrier = std::sync::Barrier::new(targets.len());
+	let results = guard::catch(|| {
+		std::thread::scope(|sc| {
+			let hs: Vec<_> = targets
+				.iter()
+				.zip(&sets)
+				.map(|(t, ts)| {
+					let path = container_path(&dir, t);
+					let barrier = &barrier;
+					sc.spawn(move || {
+						let mut src = MemSource::new(ts);
+						src.yields = 1;
+						barrier.wait();
+						guard::block_on(write_to_filename(&mut src, path.to_str().unwrap())).map_err(|e| format!("{e:#}"))
+					})
+				})
+				.collect();
+			hs.into_iter().map(|h| h.join().unwrap_or_else(|_| Err("writer thread panicked".into()))).collect::<Vec<Result<(), String>>>()
+		})
+	});
+	rep.eval();
+	rep.count("sibling_conversions", targets.len() as u64);
+	let results = match results {
+		Err(p) => {
+			rep.violation(&p.signature("write-siblings"), "writing sibling containers at the same time panicked", witness(json!({"panic": p.describe()})));
+			return;
+		}
+		Ok(r) => r,
+	};
+	for ((target, ts), r) in targets.iter().zip(&sets).zip(results) {
+		rep.eval();
+		rep.count(&format!("roundtrips_{target}"), 1);
+		if let Err(e) = r {
+			rep.violation(&format!("siblings|{target}|write-failed"), "a conversion failed because another one ran next to it", witness(json!({"target": target, "error": e})));
+			continue;
+		}
+		let path = container_path(&dir, target);
+		let decoded: Result<codec::Decoded, String> = match *target {
+			"versatiles" => std::fs::read(&path).map_err(|e| e.to_string()).and_then(|b| codec::ivt::decode(&b)),
+			"pmtiles" => std::fs::read(&path).map_err(|e| e.to_string()).and_then(|b| codec::ipm::decode_info(&b).map(|x| x.0)),
+			"tar" => std::fs::read(&path).map_err(|e| e.to_string()).and_then(|b| codec::itar::decode(&b)),
+			_ => codec::imb::decode(&path).map(|x| x.0),
+		};
+		match decoded {
+			Err(e) => rep.violation(&format!("siblings|{target}|decoder-cannot-parse"), "an independent decoder cannot parse a container written next to a sibling conversion", witness(json!({"target": target, "error": e}))),
+			Ok(d) => {
+				for f in check::compare_decoded(&d, ts, true) {
+					rep.violation(&format!("siblings|{target}|{}", f.kind), "a container written next to a sibling conversion does not hold its own tile set", witness(f.detail));
+				}
+			}
+		}
+		if ts.tiles.len() >= 3 {
+			rep.nontrivial(ts.fingerprint() ^ crate::rng::fnv(format!("siblings{target}").as_bytes()));
+		}
+	}
+	// nothing but the targets is left behind
+	let mut left: Vec<String> = std::fs::read_dir(&dir).map(|it| it.flatten().map(|e| e.file_name().to_string_lossy().to_string()).collect()).unwrap_or_default();
+	left.retain(|n| !targets.iter().any(|t| n == &format!("c.{t}")));
+	rep.label("sibling_leftovers", &format!("{left:?}"));
 	let _ = std::fs::remove_dir_all(&dir);
 }
